@@ -13,7 +13,10 @@ only = sys.argv[2:]
 EXTRA = {"C03-m2": ["C17"], "C08-m1": ["C07"], "C01-m1": ["C14"], "C01-m2": ["C12"], "C07-m4": ["C14"],
          "C01-m3": ["C02"], "C10-m4": ["C08"], "C09-m4": ["C12"],
          "C09-m6": ["C10"], "C12-m5": ["C16"], "C16-m5": ["C02"], "C05-m6": ["C17"], "C02-m6": ["C03", "C18"],
-         "C01-m6": ["C20"], "C10-m5": ["C14", "C16"], "C02-m5": ["race"], "C01-m4": ["race"], "C02-m3": ["race"], "C04-m6": ["race"]}
+         "C01-m6": ["C20"], "C10-m5": ["C14", "C16"], "C02-m5": ["race"], "C01-m4": ["race"], "C02-m3": ["race"], "C04-m6": ["race"],
+         "C12-m7": ["C02"], "C04-m8": ["C09"], "C09-m7": ["C14"], "C01-m7": ["C17"], "C05-m7": ["C17"], "C11-m7": ["C02", "C06"],
+         "C02-m7": ["C03", "C05"], "C02-m8": ["C07"], "C10-m7": ["C08"], "C17-m7": ["C03"], "C15-m8": ["C10"], "C08-m8": ["C17"],
+         "C20-m8": ["race"], "C16-m7": ["C15"], "C13-m7": ["race"]}
 dirs = sorted(d for d in glob.glob(os.path.join(ROOT, "seeded", "C*-m*")) if os.path.isdir(d))
 if only:
     dirs = [d for d in dirs if any(os.path.basename(d).startswith(o) for o in only)]
